@@ -556,6 +556,7 @@ func (eng *Engine) verifyFuncCase(ct *Contract, res *FuncResult, caseIdx int) {
 		}
 	}
 	res.Obls = append(res.Obls, x.obls...)
+	res.Obls = append(res.Obls, x.sideObls...)
 	res.Notes = append(res.Notes, x.notes...)
 	seen := map[string]bool{}
 	for _, a := range res.Abstracted {
